@@ -194,6 +194,16 @@ def enabled(m, tier):
     ops.append(("bad", "write_column-unknown-name"))
     ops.append(("bad", "write_column-wrong-length"))
     ops.append(("bad", "write_cell-row-out-of-range"))
+    if n >= 2:
+        # every wrong column length below the row count (a single entry would broadcast, an empty one too)
+        ops.append(("bad", "write_column-single-entry"))
+        ops.append(("bad", "write_column-one-short"))
+        ops.append(("bad", "write_column-empty"))
+        ops.append(("bad", "write_column-single-entry-by-index"))
+        ops.append(("bad", "append_column-single-entry"))
+    if n >= 1:
+        ops.append(("bad", "write_cell-column-out-of-range"))
+        ops.append(("bad", "write_column-index-out-of-range"))
     if n >= 1:
         ops.append(("bad", "write_rows-second-index-out-of-range"))
         ops.append(("bad", "write_rows-second-row-wrong-length"))
@@ -268,6 +278,20 @@ def apply(df, m, op, k):
             df.write_column([val(m.types[0], 1)] * (n + 1), name=m.names[0])
         elif kind == "write_cell-row-out-of-range":
             df.write_cell(val(m.types[0], 1), position=[n, 0])
+        elif kind == "write_column-single-entry":
+            df.write_column([val(m.types[-1], 1)], name=m.names[-1])
+        elif kind == "write_column-single-entry-by-index":
+            df.write_column([val(m.types[0], 1)], index=0)
+        elif kind == "write_column-one-short":
+            df.write_column([val(m.types[0], 1)] * (n - 1), name=m.names[0])
+        elif kind == "write_column-empty":
+            df.write_column([], name=m.names[0])
+        elif kind == "append_column-single-entry":
+            df.append_column([1], "zz_new", datatype=np.int64)
+        elif kind == "write_cell-column-out-of-range":
+            df.write_cell(val(m.types[0], 1), position=[0, len(m.names)])
+        elif kind == "write_column-index-out-of-range":
+            df.write_column([val(m.types[0], 1)] * n, index=len(m.names))
         elif kind == "write_rows-second-index-out-of-range":
             df.write_rows([tuple(val(t, 2) for t in m.types), tuple(val(t, 3) for t in m.types)], [0, n])
         elif kind == "write_rows-second-row-wrong-length":
